@@ -22,6 +22,13 @@
 #include <xercesc/dom/DOM.hpp>
 #include <xercesc/util/XMLUni.hpp>
 #include <xercesc/validators/common/Grammar.hpp>
+#include <xercesc/validators/schema/SchemaGrammar.hpp>
+#include <xercesc/validators/schema/SchemaElementDecl.hpp>
+#include <xercesc/validators/schema/ComplexTypeInfo.hpp>
+#include <xercesc/validators/common/SimpleContentModel.hpp>
+#include <xercesc/validators/common/MixedContentModel.hpp>
+#include <xercesc/validators/common/AllContentModel.hpp>
+#include <xercesc/validators/common/DFAContentModel.hpp>
 #include <map>
 #include <algorithm>
 #include <cstring>
@@ -217,6 +224,30 @@ static void setup(Combo& c) {
     }
 }
 
+// which XMLContentModel implementation validates the children of the global element "r" (or "-")
+static std::string gCmClass;
+static void noteCmClass(Grammar* g) {
+    gCmClass = "-";
+    if (!g || g->getGrammarType() != Grammar::SchemaGrammarType) return;
+    try {
+        RefHash3KeysIdPoolEnumerator<SchemaElementDecl> en = ((SchemaGrammar*)g)->getElemEnumerator();
+        while (en.hasMoreElements()) {
+            SchemaElementDecl& d = en.nextElement();
+            if (narrow(d.getBaseName()) != "r") continue;
+            ComplexTypeInfo* ti = d.getComplexTypeInfo();
+            if (!ti) { gCmClass = "none"; return; }
+            XMLContentModel* cm = ti->getContentModel();
+            if (!cm) gCmClass = "none";
+            else if (dynamic_cast<SimpleContentModel*>(cm)) gCmClass = "Simple";
+            else if (dynamic_cast<MixedContentModel*>(cm)) gCmClass = "Mixed";
+            else if (dynamic_cast<AllContentModel*>(cm)) gCmClass = "All";
+            else if (dynamic_cast<DFAContentModel*>(cm)) gCmClass = "DFA";
+            else gCmClass = "other";
+            return;
+        }
+    } catch (...) { gCmClass = "exc"; }
+}
+
 static std::string loadSchema(Combo& c, const std::string& name) {
     Codes codes;
     const std::string& txt = gDocs[name];
@@ -232,6 +263,7 @@ static std::string loadSchema(Combo& c, const std::string& name) {
             c.dom->resetCachedGrammarPool();
             c.dom->sink = &codes;
             Grammar* g = c.dom->loadGrammar(src, Grammar::SchemaGrammarType, true);
+            if (!c.sg && !c.full) noteCmClass(g);
             if (!g && codes.v.empty()) codes.v.push_back("nogrammar");
         }
     } catch (const OutOfMemoryException&) { codes.v.push_back("OOM");
@@ -310,6 +342,7 @@ int main() {
             if (same) out += sres[full * 4];
             else { out += "DIS("; for (int k = 0; k < 4; k++) { if (k) out += ";"; out += sres[full * 4 + k]; } out += ")"; }
         }
+        out += " cm=" + gCmClass;
         for (const std::string& txt : insts) {
             std::vector<std::string> r;
             for (Combo* c : combos) r.push_back(parseInst(*c, txt));
